@@ -8,27 +8,23 @@
    else drops it).  A queue step delivers ANY pending id (every delivery order), runs the whole reconcile, applies its
    effects and enqueues what the watchers map each write to.  The model is the CURRENT code: the repairs of the lost
    wake-ups F-02a (dead_prev), F-02b (initfail_successor), F-02e (sync_wakeup) and of the wedged target F-21 - /repo
-   commits ee3b808, 39c8330, cb11c37, 6c28fbb - and of the SERIALIZABLE gates F-02d - eabfc1f, the transaction watcher
-   also names the successors of the transaction on each of its targets - are part of Model/Proto2.v and of [wakes].
+   commits ee3b808, 39c8330, cb11c37, 6c28fbb - of the SERIALIZABLE gates F-02d - eabfc1f, the transaction watcher also
+   names the successors of the transaction on each of its targets - and of F-C09-23 - 3e4ef79, the proposal
+   controller's configuration watcher also names the first proposal that is not applied yet - are part of Model/Proto2.v and of [wakes].
 
    How the theorems decide the property.
-   The property text is still FALSE for the current code: one lost wake-up family is left (found by the model search
-   after the SERIALIZABLE gates were repaired; open finding F-C09-23 with a tested repair fixes/C09-4.patch), shown by
-   two theorems about the executable instance (evaluated delivery orders):
-     C09_lost_wakeup_sync_serializable_refuted    idle, every target connected and synchronised, and the proposal whose turn
-                                                  it is waits in APPLYING for ever: a SERIALIZABLE Set and a plain Set were
-                                                  committed before the device connected; the configuration event leads only to
-                                                  the second proposal (COMMITTED without apply phase behind the gate), which
-                                                  hands over to its successor, never to its predecessor (reproduced on the
-                                                  real controllers with their real watchers and queues by harness/cmd/c09)
-     C09_requeue_cycle_refuted                    the same situation with a third Set: every target connected, a transaction
-                                                  not final, and everything that is pending is a pair of proposals that,
-                                                  whatever the oracle, do nothing but re-queue each other: no delivery order
-                                                  ever empties the queue or changes the world (a livelock)
-   The repaired shapes are regression Examples in Proofs/P2_QueueWitness.v (regression_dead_prev, _apply_failed,
-   _initfail_successor, _serializable_gate, _serializable_three, _sync_wakeup, _two_changes_offline,
-   _partial_apply_failure: complete histories of the scenarios of F-02a, F-02b, F-02d, F-02e and F-21 end idle, at a
-   fixed point, every target connected, every transaction final).
+   No lost wake-up family is known any more for the current code: the model search (ocaml/c09_search.ml, run on every
+   check) finds no idle state that is not a fixed point and no livelock with every target connected, with and without
+   SERIALIZABLE transactions (> 700 000 idle states per tier-thorough run); the seven scenarios of the repaired
+   findings complete on the real controllers (harness/cmd/c09) and as regression Examples in Proofs/P2_QueueWitness.v
+   (regression_dead_prev, _apply_failed, _initfail_successor, _serializable_gate, _serializable_three, _sync_wakeup,
+   _sync_serializable, _two_changes_offline, _partial_apply_failure: they end idle, at a fixed point, every target
+   connected, every transaction final).  The property is NOT proved in full:
+     C09_busy_wait_refuted        "the controllers have no pending work" need not be reached while a device is away: behind
+                                  a SERIALIZABLE transaction that waits for its device, a COMMITTED proposal whose apply
+                                  phase was not started and its successor in APPLYING re-queue each other, whatever the
+                                  oracle, and nothing else is pending: the work set stays non-empty and the world unchanged
+                                  until the environment moves (open finding F-C09-22; no small repair)
    What is proved for all pure layers, worlds, oracles and delivery orders:
      C09_queue_runs_are_runs      every queued run is a run of Model/Proto2.v (so every invariant proved about that
                                   model - C01 ... - holds in every queued world)
@@ -37,22 +33,34 @@
      C09_fixpoint_partial         C09_fixpoint under the wake-up-token invariant [tokens] (every enabled id is reached
                                   from a pending id through re-queue results): all queues empty => no reconcile of any
                                   controller id has an effect, for any oracle.
-                                  PARTIAL: [tokens] is a hypothesis, not a proved invariant.  The missing lemma is
-                                  "qstep preserves tokens" for the model with the repair of F-C09-23 (one case per
-                                  effect x waiting state; it needs the chain invariants prev/next/cursors of DESIGN 5.0).
-                                  Evidence instead of proof: ocaml/c09_search.ml finds no idle state that is not a fixed
-                                  point in > 700 000 idle states without SERIALIZABLE transactions - and, with fixes/C09-4.patch modelled, none and
-                                  no livelock with them either (run on every check
-                                  by props/c09_extra.py); tokens_satisfiable exhibits a non-trivial world.
+                                  PARTIAL: [tokens] is a hypothesis, not a proved invariant.  Proved towards it:
+     C09_writes_wake_owners       after the delivery of ANY pending id, for every record it wrote the controller of that
+                                  record, the transaction of a written proposal, and for a configuration the proposal
+                                  controller (Index, Applied.Index, Proposed.Index), the configuration and the mastership
+                                  controller are pending: every id whose enabledness depends only on the written record
+                                  keeps a token.
+                                  MISSING for [tokens] (each needs the chain invariants C_inv / T_inv / G_inv of
+                                  Proofs/P2_Cursor*.v, which hold in every queued world by C09_queue_runs_are_runs, plus a
+                                  case analysis per waiting state): the cross-record waits -
+                                  (a) transaction i INITIALIZING behind transaction i-1 (token: Requeue{i+1});
+                                  (b) a transaction at a SERIALIZABLE gate (token: tx_wakes names the successors);
+                                  (c) a proposal waiting for Committed / Applied.Index = PrevIndex (token: the predecessor's
+                                      requeue_next, or the walk back from Proposed.Index / first_unapplied);
+                                  (d) a proposal in APPLYING waiting for master / term / synchronisation / connection
+                                      (token: cfg_wakes first_unapplied);
+                                  and an environment hypothesis: no foreign CONTROLS relation and no target removed while its
+                                  connection stays (there the connection / mastership ids are enabled by design without
+                                  being woken).  Evidence instead of proof: the search above.
      C09_terminates_partial       every write of the transaction controller and of the proposal controller to a
                                   transaction / proposal record strictly lowers the phase rank of that record
                                   (C09_rank_bounds: at most 11 / 12), so records only move forward and each is written a
                                   bounded number of times.  PARTIAL: not summed into one global measure (missing: the
                                   sum over the finite maps, and the cursor writes of the configuration - Proposed /
                                   Committed / Applied indexes - which need the chain invariant prev < index), and
-                                  C09_requeue_cycle_refuted shows that effect-free re-queueing need NOT terminate.
-   C09_progress is neither proved nor refuted for the current model (its refutation, the wedged target F-21, is repaired:
-   regression_partial_apply_failure); a proof needs the same chain invariants. *)
+                                  C09_busy_wait_refuted shows that effect-free re-queueing need NOT terminate while a device is away.
+   C09_progress (reachable, every target connected, a transaction not final => some id enabled) is neither proved nor
+   refuted for the current model (its refutation, the wedged target F-21, is repaired: regression_partial_apply_failure);
+   a proof needs the same chain invariants and the case analysis (c), (d) read as progress statements. *)
 From stdpp Require Import gmap.
 From Coq Require Import NArith.
 From OC Require Import Base.Bytes Model.P2Pure Model.Proto2 Model.P2Inst Model.Proto2Queue Model.P2QInst
@@ -91,6 +99,13 @@ Section C09.
   Proof. exact (fun s _ => fixpoint_of_tokens candidate candidate_rb rollback_of overlay commit_merge payload record_applied touched
                   restore resync_payload doc_ok stamp v_empty d_empty ch_empty s). Qed.
 
+  Theorem C09_writes_wake_owners : forall (s : @qworld V Ch Req D) n o c0 e c,
+    nth_error (queue s) n = Some c0 -> In e (fst (reconcile o (qw s) c0)) -> lands (qw s) e -> In c (owners e) ->
+    In c (queue (@qstep V Ch Req D candidate candidate_rb rollback_of overlay commit_merge payload record_applied touched restore
+                        resync_payload doc_ok dev_apply stamp v_empty d_empty ch_empty s (QDeliver n o))).
+  Proof. exact (delivery_wakes_owners candidate candidate_rb rollback_of overlay commit_merge payload record_applied touched restore
+                  resync_payload doc_ok dev_apply stamp v_empty d_empty ch_empty). Qed.
+
   Theorem C09_terminates_partial : forall (o : oracle) (w : @world V Ch Req D) (c : ctrl),
     (match c with CtlTx _ | CtlProp _ => True | _ => False end) -> Forall (forward w) (fst (reconcile o w c)).
   Proof. exact (records_move_forward candidate candidate_rb rollback_of overlay commit_merge payload record_applied touched restore
@@ -101,15 +116,13 @@ Section C09.
 End C09.
 
 (* the current code, executable instance *)
-Theorem C09_lost_wakeup_sync_serializable_refuted : lost_wakeup sig_apply_ready.
-Proof. exact lost_wakeup_sync_serializable. Qed.
-Theorem C09_requeue_cycle_refuted : livelock.
-Proof. exact livelock_behind_gate. Qed.
+Theorem C09_busy_wait_refuted : busy_wait.
+Proof. exact busy_wait_device_away. Qed.
 
 Print Assumptions C09_queue_runs_are_runs.
 Print Assumptions C09_enabled_only_stored.
 Print Assumptions C09_fixpoint_partial.
+Print Assumptions C09_writes_wake_owners.
 Print Assumptions C09_terminates_partial.
 Print Assumptions C09_rank_bounds.
-Print Assumptions C09_lost_wakeup_sync_serializable_refuted.
-Print Assumptions C09_requeue_cycle_refuted.
+Print Assumptions C09_busy_wait_refuted.
